@@ -93,7 +93,7 @@ struct Lossy {
     size_t npk = log.size(), pci = 0;
     std::vector<float> recentL;                    // last second of L output (for the boundedness clause)
     std::vector<double> ref_peak;                  // peak of the loss-free twin's output per packet
-    struct Pending { size_t k; double pk; bool fec; int mode; double cng; }; std::vector<Pending> pending;   // isolated concealed frames waiting for packet k+1 of the reference
+    struct Pending { size_t k; double pk; bool fec; int mode; double cng; double recentL; }; std::vector<Pending> pending;   // isolated concealed frames waiting for packet k+1 of the reference
     const size_t recent_cap = (size_t)dfs * dch;        // 1 s
     auto push_recent = [&](const std::vector<float> &v) { recentL.insert(recentL.end(), v.begin(), v.end()); if (recentL.size() > recent_cap) recentL.erase(recentL.begin(), recentL.end() - (long)recent_cap); };
     // recovery bookkeeping
@@ -113,7 +113,10 @@ struct Lossy {
       while (!pending.empty() && pending.front().k + 1 <= k) {
         Pending q = pending.front(); pending.erase(pending.begin());
         double nb = q.cng; for (size_t j = q.k - 2; j <= q.k + 1 && j < ref_peak.size(); j++) nb = std::max(nb, ref_peak[j]);
-        if (nb >= 0.01) {
+        // (the property bounds a concealed frame by what this decoder itself played recently; where the faulty receiver has been playing
+        //  much louder than the loss-free twin - e.g. it missed the first MDCT frame after a mode switch and decoded the following ones
+        //  from reset band energies - its own level is the reference and the twin's neighbourhood says nothing)
+        if (nb >= 0.01 && q.recentL <= 2.0 * nb) {
           long milli = (long)(q.pk / nb * 1000); if (run.stat["max:conceal_vs_neighbourhood_milli"] < milli) run.stat["max:conceal_vs_neighbourhood_milli"] = milli;
           run.count("bounded_neighbourhood_checked");
           if (getenv("OPSIM_CALIB") && milli > 1200) fprintf(stderr, "C09NB ratio=%.3f nb=%.4f pk=%.4f mode=%d fec=%d seed=%llu k=%zu\n", milli / 1000.0, nb, q.pk, q.mode, (int)q.fec, (unsigned long long)cur_seed, q.k);
@@ -224,7 +227,7 @@ struct Lossy {
       //  second of the stream, the last received packet decoded within -20 dB of the loss-free twin, and speech-like or noise-like material - a SILK decoder whose predictor state differs from the encoder's can
       //  ring up on steady tones and sweeps for hundreds of milliseconds, see DESIGN.md 10.4)
       bool benign_src = rc.fam == SRC_VOICED || rc.fam == SRC_STEADYVOICED || rc.fam == SRC_NOISE || rc.fam == SRC_SILENCE;
-      if (concealment_only && history_ok && in_step && benign_src && clean_run48 >= 150 * 48 && S.t48 >= 0 && k >= 2 && !log[k - 1].lost) pending.push_back(Pending{k, peak(pl), used_fec, rc.mode, cng_level});
+      if (concealment_only && history_ok && in_step && benign_src && clean_run48 >= 150 * 48 && S.t48 >= 0 && k >= 2 && !log[k - 1].lost) pending.push_back(Pending{k, peak(pl), used_fec, rc.mode, cng_level, peak(recentL)});
       clean_run48 = 0;
       // ---- decay under sustained loss (decay-probe sessions: loud voiced / tonal burst after a quiet lead-in)
       conceal_run48 += rc.frame48;
